@@ -606,6 +606,39 @@ def accepted_significands(bits, P, Q):
     return out, ""
 
 
+def check_fma_product_near_overflow(r, repo, rule="R11.6"):
+    """The emulated FMA variants obtain x*y as an error-free pair from two_prod(..., fix_overflow=True).  That kernel falls back to
+    (x*y, 0) - the error term is dropped - under its overflow guard.  The FMA clause holds "whenever x*y and x*y + z are finite", so
+    the fallback may be taken only when x*y itself is not finite: the quantity the guard compares with `largest` must be |x*y|.  A
+    guard on the product of the *head words* is wider: a head word exceeds its operand by up to 2^-(p-s) relative (s the split
+    position), so finite products within (1 + 2^-(p-s))^2 of `largest` lose their error term, and with z ~ -RN(x*y) the result is
+    wrong by the whole remainder."""
+    from sa.kernels import Extractor, IN, normal as knf, show, Unsupported as KUnsupported
+
+    ex = Extractor(repo)
+    x, y, C = IN("x"), IN("y"), IN("C")
+    f_md = repo.func(REL, "mul_dekker")
+    try:
+        got = ex.call(REL, "mul_dekker", [("opaque", "ctx"), x, y], dict(scale=False, fix_overflow=True, assume_fma=False, C=C))
+    except KUnsupported as e:
+        raise AnalysisError(f"{REL}::mul_dekker(fix_overflow=True): kernel shape not understood: {e}")
+    low = got[1] if isinstance(got, tuple) and len(got) == 2 else None
+    if not (isinstance(low, tuple) and low and low[0] == "select" and isinstance(low[1], tuple) and low[1][0] == "cmp"):
+        raise AnalysisError(f"{REL}::mul_dekker(fix_overflow=True): the error term is not a selection on an overflow test: {show(low)[:200]}")
+    cond = low[1]
+    sides = [cond[2], cond[3]]
+    qty = next((sd for sd in sides if not (isinstance(sd, tuple) and sd[0] == "const")), None)
+    if isinstance(qty, tuple) and qty[0] in ("abs", "fn") and len(qty) >= 2:
+        inner = qty[-1]
+    else:
+        inner = qty
+    ok = inner is not None and knf(inner) == knf(("op", "*", x, y))
+    r.ob(rule, f"{REL}::mul_dekker fix_overflow fallback is taken only when x*y overflows", ok,
+         f"the error term of the product is dropped when `{show(cond)[:160]}`: that is the product of the head words, which overflows for finite x*y next to the "
+         "overflow threshold (float16: 255.875 * 255.875 = 65472.0156 < 65504, heads 256 * 256 = 65536), so every emulated FMA variant returns "
+         "RN(RN(x*y) + z) there - fma(255.875, 255.875, -65472) = 0 instead of 0.015625", loc(REL, f_md))
+
+
 def run(repo, tier):
     r = Report("C11", tier, repo, level="other", design_ref="§3/C11")
     r.explanation = (
@@ -622,6 +655,7 @@ def run(repo, tier):
     r.rule("R11.2", "next(): for every normal x with a normal neighbour, x / c rounds to the next float away from zero and x * c to the next float towards zero - derived per format for the multiplier that is there, scale free over all significands (end-point conditions in exact rationals); direction of the step", floor=4)
     r.rule("R11.4", "3Sum is an exact decomposition and the rounded compound operations account for every error term: under exact-arithmetic semantics with 2Sum / Dekker contracts, s + e + t == x + y + z and (arm taken when the residual vanishes) + residual == exact result", floor=5)
     r.rule("R11.5", "emulated FMA (a7, a8, a9; both copies): an arm of the result accounts for every word of x*y + z, and an arm selected by a zero test is exact or the high word of an error-free pair under the facts of that test", floor=12)
+    r.rule("R11.6", "the product step of the emulated FMA delivers its error term whenever x*y is finite: the overflow fallback of two_prod / mul_dekker is guarded by |x*y| itself", floor=1)
     r.rule("R11.3", "the emulated FMA variants call two_prod with fix_overflow, and that guard is the sign-symmetric |xh*yh| > largest fallback", floor=2)
 
     want = {"Q": lambda p: 2 ** (p - 1), "P": lambda p: 2 ** (p - 1) + 1}
@@ -759,6 +793,7 @@ def run(repo, tier):
     if n_fma == 0:
         raise AnalysisError("no two_prod(..., fix_overflow=...) call found in the fma implementations")
 
+    check_fma_product_near_overflow(r, repo)
     check_eft_accounting(r, repo)
     check_fma_accounting(r, repo)
     # ---- R11.2 next(): the multiplier is whatever name the select arms multiply/divide x by
